@@ -183,7 +183,14 @@ type RTCPGate struct {
 	Count  atomic.Int64
 	// FailIf decides per batch whether the write fails.
 	FailIf func(pkts []rtcp.Packet) error
+	// Annotate makes the gate behave like a writer that stores something in the attributes it
+	// is given (as Attributes.GetRTCPPackets-style caching does). AttrReused counts writes whose
+	// attributes already carried the annotation of an EARLIER write: the map was shared.
+	Annotate   bool
+	AttrReused atomic.Int64
 }
+
+type annotationKey struct{}
 
 // NewRTCPGate creates a gate.
 func NewRTCPGate(clk *Clock) *RTCPGate { return &RTCPGate{clk: clk, FailAt: map[int]error{}} }
@@ -191,6 +198,12 @@ func NewRTCPGate(clk *Clock) *RTCPGate { return &RTCPGate{clk: clk, FailAt: map[
 // Write implements interceptor.RTCPWriter.
 func (g *RTCPGate) Write(pkts []rtcp.Packet, a interceptor.Attributes) (int, error) {
 	g.Count.Add(1)
+	if g.Annotate && a != nil {
+		if a.Get(annotationKey{}) != nil {
+			g.AttrReused.Add(1)
+		}
+		a.Set(annotationKey{}, g)
+	}
 	ev := RTCPEvent{Stamp: g.clk.Tick(), VTime: time.Now(), Pkts: append([]rtcp.Packet(nil), pkts...), Attr: a}
 	n := 0
 	for _, p := range pkts {
